@@ -16,6 +16,12 @@ def _is_bool_ty(t):
     return t in ('bool', 'const bool')
 
 
+def _is_int_ty(t):
+    t = (t or '').replace('const ', '').strip()
+    return t in ('int', 'unsigned int', 'long', 'unsigned long', 'unsigned char', 'char', 'short', 'unsigned short',
+                 'signed char', 'long long', 'unsigned long long')
+
+
 def _is_enum_ty(t):
     t = (t or '').replace('const ', '')
     return t in ('yakushima::status', 'yakushima::scan_endpoint')
@@ -120,16 +126,26 @@ def track_assign(f, n, fs, facts=None, tracked_types=(_is_bool_ty, _is_enum_ty))
     k = n['k']
     if k == 'DeclStmt':
         for v in n.get('vars', []):
+            if _is_int_ty(v['type']) and facts_get(fs, v['id']) is not None:
+                fs = facts_set(fs, v['id'], None)
             if any(p(v['type']) for p in tracked_types):
                 val = _value_of(f, v['init'], v['type'], facts) if 'init' in v else None
                 fs = facts_set(fs, v['id'], val)
         return fs
-    if k == 'BinaryOperator' and n.get('op') == '=':
+    if k in ('BinaryOperator', 'CompoundAssignOperator') and (n.get('op') or '').endswith('=') and \
+            n.get('op') not in ('==', '!=', '<=', '>='):
         c = f.ch(n)
         lhs = f.strip(c[0])
         if lhs is not None and lhs['k'] == 'DeclRefExpr' and lhs.get('dk') in ('var', 'parm'):
-            if any(p(lhs.get('ty')) for p in tracked_types):
+            if _is_int_ty(lhs.get('ty')) and facts_get(fs, lhs['id']) is not None:
+                fs = facts_set(fs, lhs['id'], None)
+            if n.get('op') == '=' and any(p(lhs.get('ty')) for p in tracked_types):
                 fs = facts_set(fs, lhs['id'], _value_of(f, c[1], lhs.get('ty'), facts))
+        return fs
+    if k == 'UnaryOperator' and n.get('op') in ('++', '--'):
+        x = f.strip(f.ch(n)[0])
+        if x is not None and x['k'] == 'DeclRefExpr' and facts_get(fs, x.get('id')) is not None:
+            fs = facts_set(fs, x['id'], None)
         return fs
     if k in CALL_KINDS or k == 'CXXConstructExpr':
         for a in n.get('args', []):
@@ -173,6 +189,19 @@ def cond_shape(f, cond):
                         # (x == nullptr) true  <=> x is null
                         return (not flip), ('nonnull', x['id'], x.get('ty'))
                     return flip, ('eq', x['id'], cy, x.get('ty'))
+    if n['k'] == 'BinaryOperator' and n.get('op') in ('<', '<=', '>', '>=', '==', '!='):
+        c = f.ch(n)
+        a, b = f.strip(c[0], casts=True), f.strip(c[1], casts=True)
+        from .facts import cv_through
+        for x, y, swap in ((a, c[1], False), (b, c[0], True)):
+            if x is not None and x['k'] == 'DeclRefExpr' and x.get('dk') in ('var', 'parm') and \
+                    _is_int_ty(x.get('ty')):
+                cy = cv_through(f, y)
+                if cy is not None:
+                    op = n['op']
+                    if swap:
+                        op = {'<': '>', '<=': '>=', '>': '<', '>=': '<=', '==': '==', '!=': '!='}[op]
+                    return flip, ('icmp', x['id'], op, cy, x.get('ty'))
     if n['k'] == 'CXXOperatorCallExpr' and n.get('cn') in ('operator==', 'operator!='):
         args = [f.strip(f.node(a), casts=True) for a in n.get('args', [])]
         if len(args) == 2:
@@ -186,7 +215,7 @@ def cond_shape(f, cond):
     return flip, ('term', term(f, n))
 
 
-def refine(f, blk, idx, fs, assume=None, tracked=None):
+def refine(f, blk, idx, fs, assume=None, tracked=None, ints=None):
     """Refine the fact set along successor idx of blk (None = edge infeasible).
 
     `assume` maps var_id -> required value ('T','F','nonnull','null', enum) for facts the
@@ -202,7 +231,7 @@ def refine(f, blk, idx, fs, assume=None, tracked=None):
     taken_true = (idx == 0)
     truth = taken_true != flip  # truth value of the un-negated shape on this edge
     kind = shape[0]
-    if tracked is not None and kind in ('truth', 'eq') and not tracked((shape[-1] or '')):
+    if tracked is not None and kind in ('truth', 'eq', 'icmp') and not tracked((shape[-1] or '')):
         if not (assume and shape[1] in assume):
             return fs
     if kind == 'truth':
@@ -223,6 +252,38 @@ def refine(f, blk, idx, fs, assume=None, tracked=None):
         if cur in ('nonnull', 'null') and cur != want:
             return None
         return fs  # null-ness is only tracked through `assume`
+    if kind == 'icmp':
+        var, op, c = shape[1], shape[2], shape[3]
+        if not ints or (ints is not True and vname(var) not in ints):
+            return fs  # integer comparisons are tracked only for the variables a rule names
+        if not truth:
+            op = {'<': '>=', '<=': '>', '>': '<=', '>=': '<', '==': '!=', '!=': '=='}[op]
+        cur = facts_get(fs, var)
+        lo, hi, ne = -(1 << 70), (1 << 70), ()
+        if cur and cur.startswith('int:'):
+            parts = cur[4:].split(':')
+            lo, hi = int(parts[0]), int(parts[1])
+            ne = tuple(int(x) for x in parts[2].split(',') if x) if len(parts) > 2 else ()
+        if op == '<':
+            hi = min(hi, c - 1)
+        elif op == '<=':
+            hi = min(hi, c)
+        elif op == '>':
+            lo = max(lo, c + 1)
+        elif op == '>=':
+            lo = max(lo, c)
+        elif op == '==':
+            lo, hi = max(lo, c), min(hi, c)
+        elif op == '!=':
+            ne = tuple(sorted(set(ne) | {c}))
+        while lo in ne:
+            lo += 1
+        while hi in ne:
+            hi -= 1
+        if lo > hi:
+            return None
+        ne = tuple(x for x in ne if lo < x < hi)
+        return facts_set(fs, var, 'int:%d:%d:%s' % (lo, hi, ','.join(str(x) for x in ne)))
     if kind == 'eq':
         var, const = shape[1], shape[2]
         cur = facts_get(fs, var)
